@@ -33,14 +33,18 @@ ProcSeq == SetToSeq(Procs)
 SetToSortedSeq(X) == SetToSeq(X)          \* TLC enumerates a set of integers / strings in its normalised order
 LocTuple(r) == <<r.lt, r.lh, r.ph, r.pt, r.got, r.cur, r.phase, r.mleft, r.opi, r.k,
                  B(r.hmode = "arc"), B(r.fin), ResIdx(r.res), B(r.eos), B(r.cl)>>
-StateId(h, t, sl, pl, ql, cl, en, ac, ar, pe, ge, wa, cg, pcs, lo, cr, fr, dr, re, cre, er, to, st) ==
-  << h, t, [i \in 1..Cap |-> sl[i - 1]], pl, ql, B(cl), B(en), ac, ar, B(pe), ge, B(wa), cg,
+WbyIdx(w) == IF w = "" THEN 0 ELSE IF w = "one" THEN 1 ELSE 2
+ConsSeq == SetToSeq(Cons)
+StateId(h, t, sl, pl, ql, cl, en, ac, ar, pe, ge, wa, cg, wb, pcs, lo, cr, fr, dr, re, cre, er, to, st) ==
+  << h, t, [i \in 1..Cap |-> sl[i - 1]], pl, ql, B(cl), B(en), ac, ar, B(pe), ge, wa,
+     [i \in 1..Len(ConsSeq) |-> <<ConsSeq[i], cg[ConsSeq[i]], WbyIdx(wb[ConsSeq[i]])>>],
      [i \in 1..Len(ProcSeq) |-> <<ProcSeq[i], LabelIdx(pcs[ProcSeq[i]])>> \o LocTuple(lo[ProcSeq[i]])],
-     SetToSortedSeq(cr), SetToSortedSeq(fr), SetToSortedSeq(dr), re, ResIdx(cre), SetToSortedSeq(er), B(to), B(st) >>
-SidNow  == StateId(head, tail, slot, plock, poplock, closed, ended, active, arc, permit, gen, waiting, cgen, pc, loc,
+     SetToSortedSeq(cr), SetToSortedSeq(fr), SetToSortedSeq(dr), re,
+     [i \in 1..Len(ConsSeq) |-> <<ConsSeq[i], ResIdx(cre[ConsSeq[i]])>>], SetToSortedSeq(er), B(to), B(st) >>
+SidNow  == StateId(head, tail, slot, plock, poplock, closed, ended, active, arc, permit, gen, waiting, cgen, wby, pc, loc,
                created, freed, dropped, received, cres, err, torn, stopped)
 SidNext == StateId(head', tail', slot', plock', poplock', closed', ended', active', arc', permit', gen', waiting', cgen',
-               pc', loc', created', freed', dropped', received', cres', err', torn', stopped')
+               wby', pc', loc', created', freed', dropped', received', cres', err', torn', stopped')
 
 EdgeRec == [f |-> SidNow, t |-> SidNext, p |-> who']
 
@@ -52,10 +56,14 @@ NV_WouldBlock      == \A p \in Prods : loc[p].res # "WouldBlock"
 NV_PopFindsEmpty   == \A p \in Prods : ~(pc[p] = "pop_lt" /\ loc[p].ph = tail)
 NV_Sleeps          == pc[C] # "c_sleep"
 NV_WakeupAnte      == ~(OthersDone /\ closed /\ pc[C] = "c_sleep")
-NV_DrainAnte       == ~(cres = "eos" /\ ~stopped /\ Len(received) > 0)
-NV_EosByStopEarly  == ~(cres = "eos" /\ stopped /\ head # tail)
-NV_PermitPath      == ~(pc[C] = "r_await" /\ permit /\ gen = cgen)
-NV_GenerationPath  == ~(pc[C] = "r_await" /\ gen # cgen)
+NV_DrainAnte       == ~(cres[C] = "eos" /\ ~stopped /\ Len(received) > 0)
+NV_EosByStopEarly  == ~(cres[C] = "eos" /\ stopped /\ head # tail)
+NV_PermitPath      == ~(pc[C] = "r_await" /\ permit /\ gen = cgen[C])
+NV_GenerationPath  == ~(pc[C] = "r_await" /\ gen # cgen[C])
+NV_CancelForwards  == \A c \in Cons : ~(pc[c] = "c_sleep" /\ ~Asleep(c) /\ wby[c] = "one" /\ loc[c].phase < CCancel)
+NV_CancelRegistered == \A c \in Cons : ~(pc[c] = "c_sleep" /\ Asleep(c) /\ loc[c].phase < CCancel)
+NV_TwoWaiters      == Len(waiting) < 2
+NV_OtherTookIt     == \A c \in Cons : ~(pc[c] = "pop_lt" /\ loc[c].ph = tail /\ Len(received) > 0 /\ ~closed)
 NV_RecheckNonEmpty == ~(pc[C] = "empty" /\ head # tail)
 NV_RingDropFrees   == ~(torn /\ head # tail)
 NV_DropNotLast     == \A p \in Prods : ~(pc[p] = "drop_sub" /\ active > 1)
